@@ -777,6 +777,14 @@ def _recursion(P, R, reach):
                 if c.bb not in f.normal_blocks() or c.resolved not in scc:
                     continue
                 v = _structural(f, c)
+                if not v and f.kind != "closure":
+                    # the text may be cut by a private helper (`call_body(clause, "exists(")` wrapping strip_prefix/strip_suffix):
+                    # judge the same call in the view with helpers spliced in
+                    fv = P.inlined(f)
+                    if fv is not f:
+                        for cv in fv.calls():
+                            if cv.bb in fv.normal_blocks() and cv.resolved == c.resolved and cv.line == c.line:
+                                v = v or _structural(fv, cv)
                 inst = "%s -> %s" % (name.split("::")[-1], c.resolved.split("::")[-1])
                 if v:
                     R.hold("b", "recursion %s is structural" % inst, v, f, c.line)
@@ -873,10 +881,29 @@ def _counter_counts(P, names, g, gb, const_left):
                         a = f.sym_operand(c.args[q - 1])
                         inc = A.increment_of(a)
                         base, k = (strip(inc[0]), inc[1]) if inc else (strip(a), 0)
+                        carrier = name
+                        if base[0] == "field" and str(base[3]).startswith("closure:") and f.kind == "closure" and f.parent in P.fns:
+                            # a closure (`parts.map(|p| self.parse_at(p, depth))`) forwards a depth it captured: follow the capture
+                            # to the value the enclosing function put into the closure
+                            par = P.fns[f.parent]
+                            cap = None
+                            for bb2 in par.normal_blocks():
+                                for st2 in par.stmts(bb2):
+                                    if isinstance(st2, list) and len(st2) > 4 and st2[2] == "=" and st2[4][0] == "agg" and st2[4][1] == "closure" and st2[4][2] == f.name:
+                                        for ui, u in enumerate(f.upvars):
+                                            projs = u[1][1] if isinstance(u, list) and len(u) > 1 and isinstance(u[1], list) else []
+                                            if (u[0] == base[2] or any(isinstance(e, list) and e and e[0] == "f" and e[2] == base[2] for e in projs)) and ui < len(st2[4][3]):
+                                                cap = par.sym_operand(st2[4][3][ui])
+                            if cap is not None:
+                                inc2 = A.increment_of(cap)
+                                b2, k2 = (strip(inc2[0]), inc2[1]) if inc2 else (strip(cap), 0)
+                                if b2[0] == "param":
+                                    base, k, carrier = b2, k + k2, par.name
                         if base[0] != "param" or k < 0:
                             return False            # a constant or unrelated value resets the counter inside the cycle
-                        if (name, base[1]) not in D:
-                            D.add((name, base[1])); changed = True
+                        if carrier in scc or carrier == name:
+                            if (carrier, base[1]) not in D:
+                                D.add((carrier, base[1])); changed = True
                         if k >= 1:
                             inc_edges.add((name, h))
         # every SCC function on a cycle must carry the counter, and every cycle has an incrementing edge
